@@ -42,7 +42,8 @@ def main(argv):
         tier = "quick"
     seed = int(os.environ.get("VERIF_SEED", "0") or 0)
     t0 = time.time()
-    ev_path = os.path.join(VERIF, "evidence", pid + ".json")
+    out_root = os.environ.get("VERIF_OUT", VERIF)  # self-tests on scratch copies redirect evidence/reports
+    ev_path = os.path.join(out_root, "evidence", pid + ".json")
     os.makedirs(os.path.dirname(ev_path), exist_ok=True)
     try:
         mod = importlib.import_module("rules." + pid.lower())
@@ -83,7 +84,7 @@ def main(argv):
     seen_keys = {(i["rule"], i["key"]) for i, _ in kf}
     stale = [k for kk, k in kset.items() if kk not in seen_keys]
 
-    rdir = os.path.join(VERIF, "reports", pid)
+    rdir = os.path.join(out_root, "reports", pid)
     os.makedirs(rdir, exist_ok=True)
     for old in os.listdir(rdir):
         os.remove(os.path.join(rdir, old))
